@@ -3,7 +3,8 @@
 //! tier: quick
 //! fns: linfa_clustering::optics::OpticsValidParams::find_neighbors (the samples within the tolerance, sorted by their distance to the query), linfa_clustering::optics::OpticsValidParams::set_core_distance (distance to the minimum_points-th entry of that list, undefined when the list is shorter)
 //@ extract FN from algorithms/linfa-clustering/src/optics/algorithm.rs anchor "fn find_neighbors(" body
-//@ drop FN from "let mut neighbors: Vec<Sample<F>> = nn" through ".collect();" as "        let mut neighbors = nn.within_range_samples(&candidate, self.tolerance());   /* nn.within_range(candidate, self.tolerance()).unwrap().into_iter().map(|(pt, index)| Sample { index, reachability_distance: Some(dist(pt, candidate)), core_distance: None }).collect() */"
+//@ drop? FN from "let mut neighbors: Vec<Sample<F>> = nn" through ".collect();" as "        let mut neighbors = nn.within_range_samples(&candidate, self.tolerance());   /* the within_range(..).unwrap().into_iter().map(|(pt, index)| Sample { index, reachability_distance: Some(dist(pt, candidate)), core_distance: None }).collect() chain */"
+//@ drop? FN from "nn.within_range(candidate, self.tolerance())" through ".collect()" as "        nn.within_range_samples(&candidate, self.tolerance())   /* the same chain as a tail expression (the shape before fix b99ff5d) */"
 //@ extract CORE from algorithms/linfa-clustering/src/optics/algorithm.rs anchor "fn set_core_distance(" body
 //@ rewrite CORE ".map(|x| dataset.row(x.index))" => ".map_row(&dataset)   /* .map(|x| dataset.row(x.index)) */"
 //@ rewrite CORE ".map(|x| self.dist_fn().distance(observation, x))" => ".map_dist(self.dist_fn(), &observation)   /* .map(|x| self.dist_fn().distance(observation, x)) */"
